@@ -26,11 +26,9 @@ import (
 	"path/filepath"
 	"regexp"
 	"runtime/debug"
-	"runtime/pprof"
 	"sort"
 	"strconv"
 	"strings"
-	"time"
 
 	"github.com/feichai0017/NoKV/vfs"
 	"github.com/feichai0017/NoKV/wal"
@@ -396,6 +394,16 @@ func cutSet(size int64, recs []rec, fin uint32, every bool) []int {
 	return out
 }
 
+// confirm re-runs a failing recovery from a fresh copy of the image and demands the same verdict.
+func confirm(dir string, im *crashfs.Image, h Hist, exp []rec, v *verdict) {
+	for i := 0; i < 2; i++ {
+		w := recoverCheck(dir, im, h, exp, true)
+		if w == nil || w.phase != v.phase || w.kind != v.kind {
+			vr.Fatalf("non-deterministic failure for %s: first %v, again %v", h, *v, w)
+		}
+	}
+}
+
 func report(p *vr.Partial, h Hist, region string, v *verdict) {
 	sig := fmt.Sprintf("cut=%s phase=%s got=%s", region, v.phase, v.kind)
 	blob, _ := json.Marshal(h)
@@ -445,6 +453,7 @@ func partA(base string, h Hist, every bool, onlyCut int, p *vr.Partial, expired 
 		v := recoverCheck(filepath.Join(base, "case"), img, h, exp, reopenToo || c%7 == 0)
 		out := "ok"
 		if v != nil {
+			confirm(filepath.Join(base, "case"), img, h, exp, v)
 			out = v.phase + "/" + v.kind
 			report(p, hc, region, v)
 		}
@@ -506,6 +515,7 @@ func partB(base string, h Hist, onlyPt int, p *vr.Partial) {
 		v := recoverCheck(filepath.Join(base, "caseB"), pt.Image, h, exp, true)
 		out := "ok"
 		if v != nil {
+			confirm(filepath.Join(base, "caseB"), pt.Image, h, exp, v)
 			out = v.phase + "/" + v.kind
 			report(p, hc, region, v)
 		}
@@ -581,12 +591,6 @@ func hasBig(ops []Op) bool {
 
 func main() {
 	r := vr.Start("C13")
-	if pf := os.Getenv("VERIF_CPUPROFILE"); pf != "" {
-		f, _ := os.Create(pf)
-		_ = pprof.StartCPUProfile(f)
-		defer pprof.StopCPUProfile()
-		go func() { time.Sleep(12 * time.Second); pprof.StopCPUProfile(); f.Close(); os.Exit(0) }()
-	}
 	if r.ReplayPath != "" {
 		var h Hist
 		r.LoadReplay(&h)
